@@ -421,13 +421,20 @@ class VhdxChain(ChainSuite):
     def generate(self, rng, tier):
         n = 240 if tier == "thorough" else 18
         out = []
-        for _ in range(n):
+        for it in range(n):
             depth = rng.randint(1, 3)
             ss = rng.weighted([(512, 3), (4096, 1)])
             bs = MB
             nblocks = rng.randint(1, 3)
+            # one chain in six is larger than one chunk (2^23 sectors: 4096 blocks of 1 MiB at 512-byte sectors): partially
+            # present blocks beyond the first chunk have their bitmaps in the sector-bitmap block of THEIR chunk
+            big = it % 6 == 2
+            if big:
+                ss, depth = 512, max(2, depth)
+                nblocks = 4096 + rng.randint(1, 3)
             size = nblocks * bs - rng.pick([0, 0, ss * rng.randrange(0, 64)])
             spb = bs // ss
+            cr = fmt_vhdx.chunk_ratio(bs, ss)
             layers = []
             interesting = []     # (block, sector in block) worth reading around
             for d in range(depth):
@@ -437,22 +444,28 @@ class VhdxChain(ChainSuite):
                 blocks = []
                 bitmaps = {}
                 sb = {}
+                special = set(range(nblocks)) if not big else {0, 1, 4095, 4096, nblocks - 1}
                 for b in range(nblocks):
+                    if b not in special:
+                        blocks.append([0, 0])
+                        continue
                     st = rng.weighted([(0, 3), (6, 3), (7, 4 if top else 0), (rng.pick([1, 2, 3]), 1)])
+                    if big and top and b in (0, 4096):
+                        st = 7
                     mb = 0
                     if st in (6, 7):
                         mb = next_mb
                         next_mb += 1
                     blocks.append([st, mb])
-                if any(st == 7 for st, _ in blocks):
+                for ch in sorted({b // cr for b, (st, _) in enumerate(blocks) if st == 7}):
                     sbmb = next_mb
                     next_mb += 1
-                    sb[0] = [6, sbmb]
+                    sb[ch] = [6, sbmb]
                     for b, (st, _) in enumerate(blocks):
-                        if st == 7:
+                        if st == 7 and b // cr == ch:
                             nbytes = spb // 8
-                            bm = gen_bitmap(rng, nbytes, rng.pick(BITMAP_PATTERNS))
-                            bitmaps[str(sbmb * MB + b * nbytes)] = bm.hex()
+                            bm = gen_bitmap(rng, nbytes, rng.pick(BITMAP_PATTERNS if not big else ["random", "alt_bits", "straddle"]))
+                            bitmaps[str(sbmb * MB + (b % cr) * nbytes)] = bm.hex()
                             for _ in range(3):
                                 interesting.append((b, rng.randrange(0, spb)))
                 layers.append({"size": size, "block_size": bs, "sector_size": ss, "blocks": blocks, "sb": sb,
